@@ -10,18 +10,19 @@
     * `parseAuto`      — the meaning of an initialiser string made of `0x… / 0o… / 0b…` literals
       separated by commas (what `Bits(<str>)` builds);  `parseRepr` — `eval` of the text of `repr`;
     * `groupsOf`       — the groups of `bpg` bits a value is made of (from the left in msb0, from the right in lsb0).
-  ALG layer (function by function, bitstring/bits.py unless another file is named)
-    * `strFormAlg lsb0 l`  — `Bits.__str__` (254-277) with the slices it really takes (`_absolute_slice`: msb0 under either option);
-    * `reprForm`           — `Bits._repr` (279-289), `Bits.__repr__` (291-297), `ConstBitStream.__repr__` (bitstream.py:192-198);
-    * `cut`                — `Bits.cut` (1388-1415) through `_slice` → `BitStore.getslice` (msb0 / lsb0);
-    * `mkDtype`, `processTokens` — `Dtype(name, length)` for bin/oct/hex (dtypes.py `get_dtype`, allowed lengths
-      `(0, 4, 8, ...)`, `(0, 3, 6, ...)`) and `Bits._process_pp_tokens` (1700-1733);
-    * `Fmt.b2c`, `charsPerGroup`, `bitsPerChar` — `hex_bits2chars` … (`__init__.py`:115-132), `_chars_per_group` (1618-1623),
-      `_bits_per_char` (1625-1630);
-    * `formatBits`         — `Bits._format_bits` (1590-1616);
-    * `maxBitsPerLine`, `ppLoop`, `ppLines` — `Bits._pp` (1632-1698);   `pp` — `Bits.pp` (1735-1774);
-    * `Colour`             — bitstring_options.py `Colour.__new__`;
-    * `arrayRepr`          — `Array.__repr__` (array_.py:264-269) for uint / int / bin / oct / hex / bool items.
+  ALG layer (function by function, bitstring/bits.py at /repo c59055f unless another file is named)
+    * `strFormAlg lsb0 l`  — `Bits.__str__` (259-283) with the slices it really takes (`_absolute_slice`: msb0 under either option);
+    * `reprFormAlg`        — `Bits._repr` (285-294), `Bits.__repr__` (296-302), `ConstBitStream.__repr__` (bitstream.py:197-203);
+      `reprFileAlg`        — the `_filename` branch of `_repr` (287-288; `_setfile` 560-590 sets `_filename` at 573);
+    * `cut`                — `Bits.cut` (1422-1449) through `_slice` → `BitStore.getslice` (msb0 / lsb0);
+    * `mkDtype`, `processTokens` — `Dtype(name, length)` for bin/oct/hex (dtypes.py `get_dtype` 323-341, allowed lengths
+      `(0, 4, 8, ...)`, `(0, 3, 6, ...)`) and `Bits._process_pp_tokens` (1738-1771);
+    * `Fmt.b2c`, `bitsPerChar` — `hex_bits2chars` … (`__init__.py`:116-133), `_chars_per_group` (1655-1660),
+      `_bits_per_char` (1662-1667);
+    * `formatBits`         — `Bits._format_bits` (1627-1653);
+    * `maxBitsPerLine`, `ppLoop`, `ppLines` — `Bits._pp` (1669-1736);   `pp` — `Bits.pp` (1773-1812);
+    * `ink`                — bitstring_options.py `Colour.__new__` (89-99);
+    * `arrayRepr`          — `Array.__repr__` (array_.py:267-272) for uint / int / bin / oct / hex / bool items.
   GENERATED: `Gen.maxChars` (= `MAX_CHARS`), `Gen.ppDefaultBin/Hex/Oct`, and the graphs `Gen.*Bits2chars`
   (tied to `Fmt.b2c` by the obligations in Props/C19.lean).
 -/
@@ -124,7 +125,7 @@ def strForm (l : Bits) : Str :=
   let e := length % 4
   pre0x ++ hexDigits (l.take (length - e)) ++ commaSp ++ pre0b ++ binDigits (l.drop (length - e))
 
-/-- ALG: `Bits.__str__` (bits.py:254-277) as written.  Its slices are `self._absolute_slice(a, b)`
+/-- ALG: `Bits.__str__` (bits.py:259-283) as written.  Its slices are `self._absolute_slice(a, b)`
     (→ `BitStore.getslice_msb0`), i.e. msb0 positions whatever `options.lsb0` says (since /repo 55378c7; before,
     `self[a:b]` obeyed lsb0 and the mixed and truncated forms came out wrong under lsb0).  The parameter `lsb0` is
     kept so that every caller states under which option it runs. -/
@@ -162,7 +163,7 @@ def clsOfName? (s : Str) : Option Cls :=
 def posEq : Str := [',', ' ', 'p', 'o', 's', '=']
 def lenComment : Str := [' ', ' ', '#', ' ', 'l', 'e', 'n', 'g', 't', 'h', '=']
 
-/-- `Bits._repr(classname, length, pos)` for an object that is not file-backed (bits.py:279-289);
+/-- `Bits._repr(classname, length, pos)` for an object that is not file-backed (bits.py:285-294);
     `pos` is `0` for `Bits`/`BitArray` (`Bits.__repr__`) and `self._pos` for the stream classes. -/
 def reprFormAlg (lsb0 : Bool) (cls : Cls) (l : Bits) (pos : Nat) : Str :=
   let posString : Str := if pos ≠ 0 then posEq ++ natDec pos else []
@@ -193,7 +194,7 @@ def applyMut (m : FileMut) (file : Bits) : Bits :=
   | .overwrite8 => List.replicate (min 8 file.length) true ++ file.drop 8
 
 /-- ALG: `Bits._repr` for an object whose `_filename` is set (bits.py:287-288; `_setfile` sets it when the offset
-    is 0, bits.py:564, and nothing ever clears it): the file name and the *current* length and pos, whatever
+    is 0, bits.py:573, and nothing ever clears it): the file name and the *current* length and pos, whatever
     happened to the content since.  `fname` is the quoted path as `{self._filename!r}` prints it. -/
 def reprFileAlg (cls : Cls) (fname : Str) (len pos : Nat) : Str :=
   let posString : Str := if pos ≠ 0 then posEq ++ natDec pos else []
@@ -348,7 +349,7 @@ def parseRepr (s : Str) : Except Err (Cls × Bits × Nat) :=
 
 /-! ## `Bits.cut` -/
 
-/-- The loop of `Bits.cut` (bits.py:1406-1415) in msb0: `nextchunk = self._slice(start, min(start+bits, end))`,
+/-- The loop of `Bits.cut` (bits.py:1440-1449) in msb0: `nextchunk = self._slice(start, min(start+bits, end))`,
     stop on an empty chunk, stop after a short chunk. -/
 def cutAux (n : Nat) : Nat → Bits → List Bits
   | 0, _ => []
@@ -375,14 +376,14 @@ structure Tok where
   len : Option Nat
   deriving Repr, DecidableEq
 
-/-- `Dtype(name, length)` → `DtypeDefinition.get_dtype` (dtypes.py:312-330): a given length must be in
+/-- `Dtype(name, length)` → `DtypeDefinition.get_dtype` (dtypes.py:323-341): a given length must be in
     `allowed_lengths` — `(0, 4, 8, ...)` for hex, `(0, 3, 6, ...)` for oct, anything for bin. -/
 def mkDtype (t : Tok) : Except Err Unit :=
   match t.len with
   | none => .ok ()
   | some n => if n % t.fmt.bpc ≠ 0 then .error .value else .ok ()
 
-/-- `hex_bits2chars`, `oct_bits2chars`, `bin_bits2chars` (`__init__.py`:115-127). -/
+/-- `hex_bits2chars`, `oct_bits2chars`, `bin_bits2chars` (`__init__.py`:116-128). -/
 def Fmt.b2c : Fmt → Nat → Nat
   | .bin, n => n
   | .oct, n => n / 3
@@ -395,7 +396,7 @@ def bitsPerChar (f : Fmt) : Nat := 24 / f.b2c 24
 def defaultGroup : Fmt → Nat
   | .bin => Gen.ppDefaultBin | .oct => Gen.ppDefaultOct | .hex => Gen.ppDefaultHex
 
-/-- `Bits._process_pp_tokens` (bits.py:1700-1733) → `(bits_per_group, has_length_in_fmt)`. -/
+/-- `Bits._process_pp_tokens` (bits.py:1738-1771) → `(bits_per_group, has_length_in_fmt)`. -/
 def processTokens (t1 : Tok) (t2 : Option Tok) : Except Err (Nat × Bool) :=
   match mkDtype t1 with
   | .error e => .error e
@@ -507,11 +508,11 @@ structure PPCfg where
 
 def formatSep : Str := [' ', ':', ' ']
 
-/-- `offset_width` (bits.py:1642-1646). -/
+/-- `offset_width` (bits.py:1679-1683). -/
 def offsetWidth (c : PPCfg) (data : Bits) : Nat :=
   if c.showOffset then (natDec data.length).length + 2 else 0
 
-/-- `max_bits_per_line` (bits.py:1647-1668).  Python's `max(w - a - b - …, 0)` is truncated subtraction on `Nat`. -/
+/-- `max_bits_per_line` (bits.py:1684-1706).  Python's `max(w - a - b - …, 0)` is truncated subtraction on `Nat`. -/
 def maxBitsPerLine (c : PPCfg) (ow : Nat) : Except Err Nat :=
   if c.bpg > 0 then
     let gc1 := c.f1.b2c c.bpg
@@ -543,7 +544,7 @@ def offsetSegs (colour lsb0 : Bool) (offset ow : Nat) : List Seg :=
   if lsb0 then [ink colour .green, ⟨false, [' ', ':'] ++ padRight (ow - 2) (natDec offset)⟩, ink colour .off]
   else [ink colour .green, ⟨false, padLeft (ow - 2) (natDec offset) ++ [':', ' ']⟩, ink colour .off]
 
-/-- The `for bits in self.cut(max_bits_per_line)` loop (bits.py:1670-1697) with its state
+/-- The `for bits in self.cut(max_bits_per_line)` loop (bits.py:1708-1735) with its state
     `bitpos`, `first_fb_width`, `second_fb_width`. -/
 def ppLoop (c : PPCfg) (ow : Nat) : List Bits → Nat → Option Nat → Option Nat → Except Err (List Line)
   | [], _, _, _ => .ok []
@@ -573,7 +574,7 @@ def ppLoop (c : PPCfg) (ow : Nat) : List Bits → Nat → Option Nat → Option 
         | .error e => .error e
         | .ok ls => .ok (⟨fb1.groups, g2, segs⟩ :: ls)
 
-/-- `Bits._pp` on `data` (bits.py:1632-1698). -/
+/-- `Bits._pp` on `data` (bits.py:1669-1736). -/
 def ppLines (c : PPCfg) (data : Bits) : Except Err (List Line) :=
   let ow := offsetWidth c data
   match maxBitsPerLine c ow with
@@ -600,7 +601,7 @@ structure Layout where
   trailing : Option Str
   deriving Repr
 
-/-- `trailing_bit_length` (bits.py:1758). -/
+/-- `trailing_bit_length` (bits.py:1796). -/
 def trailingLen (len bpg : Nat) (hasLen : Bool) : Nat :=
   if hasLen ∧ bpg ≠ 0 then len % bpg else 0
 
@@ -617,7 +618,7 @@ def ppTrailing (lsb0 : Bool) (l : Bits) (t : Nat) : Bits := if lsb0 then l.take 
 def cfgOf (a : PPArgs) (bpg : Nat) : PPCfg :=
   ⟨a.t1.fmt, a.t2.map (·.fmt), bpg, a.width, a.sep, a.showOffset, a.lsb0, a.colour⟩
 
-/-- `Bits.pp(fmt, width, sep, show_offset)` (bits.py:1735-1774) for one or two bin/oct/hex tokens. -/
+/-- `Bits.pp(fmt, width, sep, show_offset)` (bits.py:1773-1812) for one or two bin/oct/hex tokens. -/
 def pp (a : PPArgs) : Except Err Layout :=
   match processTokens a.t1 a.t2 with
   | .error e => .error e
@@ -658,7 +659,7 @@ def itemsAux (n : Nat) : Nat → Bits → List Bits
 
 def items (n : Nat) (l : Bits) : List Bits := if n = 0 then [] else itemsAux n (l.length + 1) l
 
-/-- `Array.__repr__` (array_.py:264-269); `n` = item length in bits (> 0); `bool` prints no length. -/
+/-- `Array.__repr__` (array_.py:267-272); `n` = item length in bits (> 0); `bool` prints no length. -/
 def arrayRepr (k : Kind) (n : Nat) (data : Bits) : Str :=
   let dt := k.name ++ (if k = .bool then [] else natDec n)
   let listStr := ['['] ++ joinSep commaSp ((items n data).map (itemRepr k)) ++ [']']
